@@ -328,6 +328,16 @@ class IndexMachine(TraceMachine):
             self._open()
             self.labels.add("reopen-after-index-abort")
 
+    def _excuse_corrupt_dir(self):
+        """Called while handling an ObjectFormatError: a call may refuse to work with a remote that holds a
+        half-written directory object under its final name (the leftover of a failed non-atomic upload; the
+        generic store class trusts names, so the call finds it and fails to parse it). Refusing is not inventing:
+        no clause of the property is about it. Any other ObjectFormatError is re-raised."""
+        corrupt = {i for i in self.names() - self.intact() if i.endswith(".dir")}
+        if not corrupt:
+            raise  # noqa: PLE0704
+        self.labels.add("call-refused:corrupt-dir-object-in-remote")
+
     def _check_reported(self, exists, at_listing, op):
         """ids a status answer reports as existing in the remote, against the listing at that moment."""
         dirs_absent = sorted(i for i in exists if i.endswith(".dir") and i not in at_listing)
@@ -372,7 +382,7 @@ class IndexMachine(TraceMachine):
         getattr(self, "do_" + op["op"])(**args)
 
     def do_push(self, request, form, fail, abort_at, jobs, trees_from, index_abort=None, partial=False):
-        from dvc_objects.errors import ObjectDBError
+        from dvc_objects.errors import ObjectDBError, ObjectFormatError
 
         from dvc_data.hashfile.transfer import transfer
 
@@ -410,6 +420,8 @@ class IndexMachine(TraceMachine):
                 aborted = True
             except IndexKill:
                 aborted = True
+            except ObjectFormatError:
+                self._excuse_corrupt_dir()
             except ObjectDBError:
                 if not (hook.fired and hook.how == "timeout"):
                     raise
@@ -452,7 +464,7 @@ class IndexMachine(TraceMachine):
         self.labels.add("push-" + form)
 
     def do_fetch(self, request, jobs, index_abort=None):
-        from dvc_objects.errors import ObjectDBError
+        from dvc_objects.errors import ObjectDBError, ObjectFormatError
 
         from dvc_data.hashfile.transfer import transfer
 
@@ -477,6 +489,8 @@ class IndexMachine(TraceMachine):
                                cache_odb=self.cache, shallow=True, validate_status=validate)
             except IndexKill:
                 pass
+            except ObjectFormatError:
+                self._excuse_corrupt_dir()
             except ObjectDBError:
                 if not (hook.fired and hook.how == "timeout"):
                     raise
@@ -499,7 +513,7 @@ class IndexMachine(TraceMachine):
             self.labels.add("fetch-nothing-there")
 
     def do_status(self, query, qdirs, shallow, jobs, trees_from="cache", index_abort=None):
-        from dvc_objects.errors import ObjectDBError
+        from dvc_objects.errors import ObjectDBError, ObjectFormatError
 
         from dvc_data.hashfile.status import status
 
@@ -523,6 +537,8 @@ class IndexMachine(TraceMachine):
                              jobs=jobs)
             except IndexKill:
                 pass
+            except ObjectFormatError:
+                self._excuse_corrupt_dir()
             except ObjectDBError:
                 if not (hook.fired and hook.how == "timeout"):
                     raise
